@@ -197,7 +197,12 @@ def run_cases(ctx, n, gen_fn, per_case, solve_kw_fn=None, accept_errors=("ValueE
     skipped = 0
     for k in range(n):
         desc = gen_fn(ctx.rng)
-        kw = solve_kw_fn(ctx.rng) if solve_kw_fn else {"vtol": 1e-10, "itol": 1e-10}
+        if solve_kw_fn is None:
+            kw = {"vtol": 1e-10, "itol": 1e-10}
+        elif solve_kw_fn.__code__.co_argcount >= 2:
+            kw = solve_kw_fn(ctx.rng, desc)           # settings that depend on the system (e.g. phase=<one of its phases>)
+        else:
+            kw = solve_kw_fn(ctx.rng)
         sys_, df, err = solve_case(desc, kw)
         if err is not None:
             cls = sysdesc.exc_class(err[1])
